@@ -2,7 +2,7 @@
    [mk P n] is refined by [mk P (n + k)]; hence a script run that ends with anything other than
    "out of fuel" ends the same way with any larger amount of fuel. *)
 From Coq Require Import ZArith NArith PArith List Bool Arith Lia.
-From JSRef Require Import Float Syntax Values Static Ops Interp Machine Builtins Run.
+From JSRef Require Import Float Syntax Values Static Ops Promises Interp Machine Builtins Run.
 From C01 Require Export Mono_Core Mono_Ops Mono_Interp Mono_Machine Mono_Builtins Mono_Run.
 Import ListNotations.
 
@@ -77,15 +77,16 @@ Qed.
 (* the computation run by [run_script], as a function of the operations record *)
 Definition script_comp (P : prog) (self : ops) : M value :=
   let c := global_ctx (p_strict P) in
-  do _ <- global_declaration_instantiation P self (p_body P) c;;
-  do r <- o_run self (script_frames P) (CNormal None) c;;
-  match r with
-  | MDone (CNormal v) => ret (match v with Some x => x | None => VUndef end)
-  | MDone (CThrow v) => throwv v
-  | MDone (CReturn v) => ret v
-  | MDone _ => ret VUndef
-  | _ => unsupported 990%N
-  end.
+  then_drain self
+   (do _ <- global_declaration_instantiation P self (p_body P) c;;
+    do r <- o_run self (script_frames P) (CNormal None) c;;
+    match r with
+    | MDone (CNormal v) => ret (match v with Some x => x | None => VUndef end)
+    | MDone (CThrow v) => throwv v
+    | MDone (CReturn v) => ret v
+    | MDone _ => ret VUndef
+    | _ => unsupported 990%N
+    end).
 
 Definition outcome_of (r : res value) : outcome :=
   match r with
@@ -109,8 +110,9 @@ Lemma run_script_fuel_mono : forall n P st0 o,
   run_script n P st0 = o -> o <> OFuel -> forall k, run_script (n + k) P st0 = o.
 Proof.
   intros n P st0 o Ho Hnf k. subst o. rewrite !run_script_eq in *.
-  f_equal. apply (script_comp_mono P _ _ (mk_mono P n k)).
-  apply outcome_of_fuel. exact Hnf.
+  assert (E : script_comp P (mk P (n + k)) st0 = script_comp P (mk P n) st0).
+  { apply (script_comp_mono P _ _ (mk_mono P n k)). apply outcome_of_fuel. exact Hnf. }
+  rewrite E. reflexivity.
 Qed.
 
 Lemma run_deterministic_lemma : forall n P o1 o2, run n P = o1 -> run n P = o2 -> o1 = o2.
